@@ -178,7 +178,7 @@ def run_impl(cases, families=True, one_process=False):
     for i, c in enumerate(cases):
         c["id"] = i
     nj = 1 if one_process else JOBS
-    payloads = [{"cases": [{"id": c["id"], "crystal": c["crystal"], "tol": c["tol"]} for c in cases[i::nj]], "families": families}
+    payloads = [{"cases": [{"id": c["id"], "crystal": c["crystal"], "tol": c["tol"], "call_order": c.get("call_order")} for c in cases[i::nj]], "families": families}
                 for i in range(nj)]
     payloads = [p for p in payloads if p["cases"]]
     outs = C.impl_run_parallel("c07_impl", payloads, jobs=JOBS)
@@ -318,7 +318,7 @@ def shrink_and_confirm(case, fails_fn):
 def report_case(ctx, kind, case, row, extra=None, found_input=True):
     rep = {"kind": kind, "crystal": case["crystal"], "tol": case["tol"], "sg": case.get("sg"), "variant": case["variant"],
            "call": "SymmetryAnalyzer(Atoms(numbers, cell, scaled_positions, pbc=True), symmetry_tol=tol)",
-           "implementation": {k: row.get(k) for k in ("error", "sets", "letters", "equiv", "perm", "identity", "c07", "c12", "contract", "reuse") if k in row}}
+           "implementation": {k: row.get(k) for k in ("error", "sets", "letters", "equiv", "perm", "identity", "c07", "c12", "contract", "reuse", "call_order") if k in row}}
     if extra:
         rep.update(extra)
     ctx.violation(rep, found_input=found_input)
@@ -479,6 +479,7 @@ def replay_rows(rep, case):
     """re-runs the case; when the replay records a history (the crystal the shared analyzer saw before), that crystal is
     analysed first in the same process"""
     prev = ((rep.get("implementation") or {}).get("reuse") or {}).get("previous_crystal")
+    case = dict(case, call_order=(rep.get("implementation") or {}).get("call_order"))
     if prev:
         c0 = {"crystal": prev, "tol": case["tol"], "sg": None, "variant": "replay-history", "base": None}
         return run_impl([c0, case], True, one_process=True)[1]
